@@ -104,6 +104,33 @@ def gen_bool_positions(bools=BOOL_EXPRS):
     return out
 
 
+INT_CONDS = ["a", "c", "RsV", "RssV", "PuV", "siV", "(a - i)", "((a >> i) & 1)", "(RsV & 0xff)", "((int8_t)RtV)", "((int64_t)a)", "clz32(a)", "mem_load_u8(RsV)", "(r = a)", "a++", "3", "0", "HEX_REG_ALIAS_LC0", "PuN", "(a ? c : 0)", "({ r = a; r + 1; })", "-a", "~c", "sizeof(a)"]
+
+
+def gen_cond_positions(conds=INT_CONDS):
+    """An integer-valued (non-boolean) expression in every position that wants a truth value."""
+    out = []
+    d = [("int32_t", "a", "input"), ("uint8_t", "c", "input"), ("int64_t", "r", "local")]
+    for e in conds:
+        for kind, st in [
+            ("if", "if (%s) { r = 1; }" % e),
+            ("ifelse", "if (%s) { r = 1; } else { r = 2; }" % e),
+            ("for", "for (i = 0; %s; i++) { r += i; }" % e),
+            ("for-after", "for (i = 0; %s; i++) { r += i; } RdV = %s;" % (e, e)),
+            ("cond", "r = %s ? 1 : 2;" % e),
+            ("not", "r = !%s;" % e),
+            ("and-l", "r = %s && c;" % e),
+            ("and-r", "r = c && %s;" % e),
+            ("or-l", "r = %s || c;" % e),
+            ("or-r", "r = c || %s;" % e),
+            ("if-and", "if (%s && %s) { r = 1; }" % (e, e)),
+            ("nested", "if (c) { if (%s) { r = 1; } }" % e),
+            ("for-if", "for (i = 0; i < 2; i++) { if (%s) { r += 1; } }" % e),
+        ]:
+            out.append(P(d, st, ("condpos", kind, e)))
+    return out
+
+
 OPERANDS = [("a", [("int32_t", "a", "input")]), ("c", [("uint8_t", "c", "input")]), ("RsV", []), ("RssV", []), ("PuV", []), ("siV", []), ("5", []), ("0x1234LL", []), ("HEX_REG_ALIAS_LR", []), ("PuN", []), ("RxV", []), ("MuV", [])]
 
 
@@ -188,6 +215,7 @@ def static_space(tier):
         specs += gen_bool_mix(["int8_t", "uint8_t", "uint16_t", "int32_t", "uint32_t", "int64_t", "uint64_t"])
     specs += gen_reuse() + gen_folding() + gen_control() + gen_rw_operands()
     specs += gen_bool_positions(BOOL_EXPRS[:4] if tier == "quick" else BOOL_EXPRS)
+    specs += gen_cond_positions()
     specs += c06.space("quick")
     if tier == "thorough":
         specs += c03.space("quick") + c05.space("quick") + c06.space("thorough")
